@@ -15,8 +15,10 @@ CONTRACT = "cosmos2contract"
 ACCOUNTS = ["alice", "bob", "carol", "dave", "erin", "frank", "grace", "heidi"]
 RATES = ["0", "0.003", "0.01", "0.1", "0.5", "0.25", "0.0005", "1", "0.999", "1.5", "0.05", "0.005",
          "0.0954045954045954045954045954", "0.00000000000000000001", "-0.01", "0.3333333333333333333333333333",
-         "2.5e-3", "1E-2", "1e0", ".01", "0.01_", " 0.02", "0.02 ", "\t0.01", "0.0 1"]
-RATE_W = [3, 6, 6, 6, 4, 3, 3, 1, 1, 1, 4, 3, 1, 1, 1, 1, 1, 1, 0.5, 0.5, 0.5, 0.7, 0.7, 0.4, 0.3]
+         "2.5e-3", "1E-2", "1e0", ".01", "0.01_", " 0.02", "0.02 ", "\t0.01", "0.0 1",
+         "0.4999999999999999999", "0.04999999999999999999", "0.000833333333333333333", "0.0100000000000000004",
+         "0.000000000025"]
+RATE_W = [3, 6, 6, 6, 4, 3, 3, 1, 1, 1, 4, 3, 1, 1, 1, 1, 1, 1, 0.5, 0.5, 0.5, 0.7, 0.7, 0.4, 0.3, 1.2, 0.8, 0.8, 0.8, 0.5]
 
 
 def parse_dec(s):
@@ -166,6 +168,11 @@ class World:
         self.accounts = rng.sample(ACCOUNTS, nacc)
         conv = rng.sample(["cva", "cvb"], rng.choice([0, 1, 1, 2]))
         quotes = rng.sample(["qa", "qb", "qc"], rng.choice([1, 1, 2, 3]))
+        if rng.random() < 0.08:
+            # denomination names contained in one another ("q" in "qa", "bas" in "base", "cv" in "cva")
+            quotes = quotes + rng.sample(["q", "qaa", "a"], rng.randint(1, 2))
+        if rng.random() < 0.06:
+            conv = conv + rng.sample(["bas", "basex", "cv", "ase"], rng.randint(1, 2))
         if rng.random() < 0.06:
             quotes = quotes + ["base"]                      # the base denomination also accepted as a quote
         if conv and rng.random() < 0.04:
@@ -229,6 +236,10 @@ class World:
                 f["execs"] = rng.choice([["X"], ["ab"], ["alice", "Bob"], ["a" * 91], ["a" * 90]])
             elif m == 7:
                 f["apprs"] = rng.choice([["X"], ["ab"], ["carol", "CAROL"]])
+            elif m == 8 and rng.random() < 0.4:
+                r_ = rng.choice([0, 1, 2, 6, 18])
+                f["p"] = rng.choice([2 ** 32, 2 ** 64, 7 * 2 ** 32, 2 ** 8, 2 ** 16, 2 ** 127]) + r_
+                f["inc"] = 10 ** r_ * rng.choice([1, 3, 100])
             elif m == 8:
                 f["p"] = rng.randint(0, 19); f["inc"] = 10 ** rng.randint(0, 19) * rng.choice([1, 2, 5])
             elif m == 9 and rng.random() < 0.5:
@@ -502,6 +513,9 @@ class World:
                 return rate, rng.choice(self.accounts)
             if r < 0.92:
                 return rng.choices(RATES, RATE_W)[0], rng.choice(self.accounts)
+            if cur and rng.random() < 0.3 and parse_dec(cur[1]) is not None and "." in cur[1] and len(cur[1].partition(".")[2]) <= 18:
+                w_, _, f_ = cur[1].partition(".")
+                return w_ + "." + f_.ljust(18, "0") + rng.choice(["4", "0004", "49", "0000000001"]), cur[0]
             return rng.choice([(None, "alice"), ("0.1", None), ("abc", "alice"), ("0.1", "X"), ("", "alice"), ("0.1", ""),
                                (cur[1] if cur else "0.01", ""), ((cur[1] + "0") if cur and "." in cur[1] else "0.010", ""),
                                (" " + (cur[1] if cur else "0.01"), rng.choice(self.accounts))])
@@ -541,6 +555,8 @@ class World:
                 if isinstance(b, fmt.Bid):
                     pool.append(b.owner)
             r["sender"] = rng.choice(pool)
+            if rng.random() < 0.25:
+                r["sender"] = rng.choice([r["sender"].upper(), r["sender"].capitalize(), r["sender"] + " ", " " + r["sender"]])
         elif f == "funds":
             fu = list(r["funds"])
             m = rng.randint(0, 5)
@@ -562,7 +578,8 @@ class World:
                 r[f] = rng.choice([0, 1, c.increment])
             else:
                 r[f] = max(0, r[f] + rng.choice([-1, 1, -c.increment, c.increment, -r[f], 2 ** 96 - r[f],
-                                                 2 ** 96 - 1 - r[f], 2 ** 128 - 1 - r[f]]))
+                                                 2 ** 96 - 1 - r[f], 2 ** 128 - 1 - r[f], 2 ** 64, 2 ** 32,
+                                                 2 ** 64 - r[f], 2 ** 32 * c.increment]))
         elif f == "price":
             p = c.precision
             r["price"] = rng.choice(["0", "-1", "", "abc", "1e3", "1." + "0" * (p) + "1", ".5", "5.", "1_0",
@@ -578,7 +595,11 @@ class World:
             else:
                 r[f] = new_uuid(rng)
         elif f in ("base", "quote"):
-            r[f] = rng.choice([c.base, "zz", ""] + c.conv + c.quotes)
+            cur = r[f] or c.base
+            r[f] = rng.choice([c.base, "zz", ""] + c.conv + c.quotes +
+                              [cur[:-1], cur[1:], cur + "x", cur.upper(), c.base[:3], c.base[1:]])
+            if r["kind"] == "approve_ask" and r["funds"] and rng.random() < 0.7:
+                r["funds"] = [(r["funds"][0][0], r[f])]      # the funds follow the denomination named
         elif f == "fee":
             q = r["quote"]
             if r["fee"] is None:
@@ -670,7 +691,8 @@ class World:
 
 
 # ---------------------------------------------------------------------- migration stream
-VERSIONS = ["0.14.9", "0.15.0", "0.16.1", "0.16.2", "0.16.3", "0.17.0", "0.18.2", "0.19.0", "0.19.1", "0.19.2",
+VERSIONS = ["0.19.0+hotfix.1", "0.16.2+x", "0.19.1+x", "0.16.1+x", "0.19.0-rc.1",
+            "0.14.9", "0.15.0", "0.16.1", "0.16.2", "0.16.3", "0.17.0", "0.18.2", "0.19.0", "0.19.1", "0.19.2",
             "1.0.0", "2.3.4", "0.17.0-rc1", "0.17.0+build5", "0.17", "v0.17.0", "00.17.0", "0.17.0 ", "",
             "0.16.2-alpha", "18446744073709551616.0.0", "0.19.1-rc.1", "1.0.0-0"]
 
@@ -694,13 +716,20 @@ def migration_history(w, hn):
     if rng.random() < 0.93:
         # half of the migration histories start inside the conversion window; the others at and around every
         # threshold and at malformed version strings
-        ver = rng.choice(["0.16.2", "0.16.3", "0.17.0", "0.18.2", "0.19.0"]) if rng.random() < 0.5 else rng.choice(VERSIONS)
+        ver = rng.choice(["0.16.2", "0.16.3", "0.17.0", "0.18.2", "0.19.0", "0.19.0", "0.19.0+hotfix.1", "0.18.2+b"]) if rng.random() < 0.5 else rng.choice(VERSIONS)
         w.send("SEEDVER %s %s" % (enc("ats_smart_contract"), enc(ver)))
     # seeded orders, some under legacy un-hyphenated ids
-    for _ in range(rng.randint(0, 3)):
+    def legacy_id():
         i = new_uuid(rng)
-        if rng.random() < 0.5:
-            i = i.replace("-", "")
+        r_ = rng.random()
+        if r_ < 0.4:
+            return i.replace("-", "")
+        if r_ < 0.55:
+            return rng.choice([i.upper(), "{" + i + "}", "urn:uuid:" + i, i.replace("-", "").upper()])
+        return i
+
+    for _ in range(rng.randint(0, 3)):
+        i = legacy_id()
         size = inc * rng.randint(1, 5)
         base = rng.choice(["base", "base", "cva"])
         cls = "basic" if base == "base" else rng.choice(
@@ -709,9 +738,7 @@ def migration_history(w, hn):
                                                      enc(price_str(rng.choice([2, 5, 10]), p, rng)), size))
         w.ids.append(i)
     for _ in range(rng.randint(1, 4)):
-        i = new_uuid(rng)
-        if rng.random() < 0.5:
-            i = i.replace("-", "")
+        i = legacy_id()
         lots = rng.randint(2, 8)
         size = inc * lots
         u = rng.choice([2, 5, 10, 25])
@@ -739,8 +766,9 @@ def migration_history(w, hn):
         if rng.random() < 0.12:   # ill-formed logs: sums beyond the order or overflowing
             evs.append(rng.choice(["F:%d:%d:-" % (size, total), "J:%d:1:5" % (2 ** 128 - 1), "R:%d:7" % (2 ** 127)]))
         if rng.random() < 0.7:
-            w.send("SEEDBID2 %s %s %s base %d qa %d %s %s %s" % (
-                enc(i), enc(i), enc(owner), size, total, fee, enc(price), ";".join(evs) if evs else "[]"))
+            w.send("SEEDBID2 %s %s %s %s %d qa %d %s %s %s" % (
+                enc(i), enc(i), enc(owner), "base" if rng.random() < 0.9 else rng.choice(["cva", "oldbase"]), size, total, fee,
+                enc(price), ";".join(evs) if evs else "[]"))
         else:
             w.send("SEEDBID3 %s %s %s base %d %d qa %d %d %s %d %s" % (
                 enc(i), enc(i), enc(owner), size, sb, total, sq, fee, sf, enc(price)))
